@@ -391,6 +391,68 @@ def apply(ex, ctx, st, f, args, dest_ty, term):
                            else agg(('adt', R, pdb.variant_index(R, 'Err')), (args[1],))), st
         raise Uncertified("Option::%s" % name)
 
+    if dpath == 'core::convert::TryFrom::try_from' and path.startswith('core::convert::num::'):
+        a = args[0]
+        frm = ty_of(a)
+        to = None
+        if f.get('targs'):
+            to = pdb.tys(f['targs'][0])
+        if frm not in INT_BITS or to not in INT_BITS:
+            raise Uncertified("numeric TryFrom %s -> %s" % (frm, to))
+        from .pdb import is_signed
+        bits = INT_BITS[to]
+        lo, hi = (-(1 << (bits - 1)), (1 << (bits - 1)) - 1) if is_signed(to) else (0, (1 << bits) - 1)
+        fb = INT_BITS[frm]
+        flo, fhi = (-(1 << (fb - 1)), (1 << (fb - 1)) - 1) if is_signed(frm) else (0, (1 << fb) - 1)
+        okc = TRUE
+        if flo < lo:
+            okc = mk_and(okc, mk_bin('Ge', a, C(lo, frm), frm, 'bool'))
+        if fhi > hi:
+            okc = mk_and(okc, mk_bin('Le', a, C(hi, frm), frm, 'bool'))
+        R = 'core::result::Result'
+        pdb.adt(R)
+        return mk_ite(okc, agg(('adt', R, pdb.variant_index(R, 'Ok')), (mk_cast(a, to),)),
+                      agg(('adt', R, pdb.variant_index(R, 'Err')), (mk('opaque', 'TryFromIntError'),))), st
+    if path.startswith('core::result::Result::<T, E>::'):
+        R = 'core::result::Result'
+        o = args[0]
+        okix = pdb.variant_index(R, 'Ok')
+        if name == 'is_ok':
+            return map_ite(o, lambda l: C(1 if l[1][2] == okix else 0, 'bool')), st
+        if name == 'is_err':
+            return map_ite(o, lambda l: C(0 if l[1][2] == okix else 1, 'bool')), st
+        if name == 'ok':
+            return map_ite(o, lambda l: option_some(l[2][0]) if l[1][2] == okix else OPTION_NONE), st
+        if name == 'unwrap_or':
+            return map_ite(o, lambda l: l[2][0] if l[1][2] == okix else args[1]), st
+        if name == 'unwrap_or_default':
+            d = default_value(ex, dest_ty)
+            return map_ite(o, lambda l: l[2][0] if l[1][2] == okix else d), st
+        if name in ('unwrap', 'expect'):
+            isok = map_ite(o, lambda l: C(1 if l[1][2] == okix else 0, 'bool'))
+            ex.obligations.append(Obligation(key, line, 'Result::' + name, isok, st.gstack, None, tuple(ex.fn_stack)))
+            return map_ite(o, lambda l: l[2][0] if l[1][2] == okix else UNDEF), st
+        raise Uncertified("Result::%s" % name)
+    if path.startswith('core::option::Option::<T>::') and name in ('and_then', 'unwrap_or_else', 'map_or', 'filter', 'or'):
+        o = args[0]
+        if name == 'and_then':
+            def at(l):
+                nonlocal st
+                if l[1][2] == 0:
+                    return OPTION_NONE
+                r, st = call_closure(ex, ctx, st, args[1], [l[2][0]])
+                return r
+            return map_ite(o, at), st
+        if name == 'map_or':
+            def mo(l):
+                nonlocal st
+                if l[1][2] == 0:
+                    return args[1]
+                r, st = call_closure(ex, ctx, st, args[2], [l[2][0]])
+                return r
+            return map_ite(o, mo), st
+        raise Uncertified("Option::%s" % name)
+
     # ---- slices / arrays -------------------------------------------------------------------
     if path == 'core::slice::<impl [T]>::len':
         return ex.slice_len(st, args[0]), st
@@ -460,6 +522,26 @@ def apply(ex, ctx, st, f, args, dest_ty, term):
         if i[0] == 'c':
             return (option_some(elems[i[1]]) if i[1] < len(elems) else OPTION_NONE), st
         raise Uncertified("slice get with symbolic index")
+    if path == 'core::slice::<impl [T]>::rotate_left' or path == 'core::slice::<impl [T]>::rotate_right':
+        arr = ex.load(st, args[0])
+        kk = args[1]
+        if arr[0] != 'agg' or kk[0] != 'c':
+            raise Uncertified("rotate with symbolic amount")
+        n_ = len(arr[2])
+        ex.obligations.append(Obligation(key, line, 'rotate amount in range', C(1 if kk[1] <= n_ else 0, 'bool'), st.gstack, None, tuple(ex.fn_stack)))
+        r_ = kk[1] % n_ if n_ else 0
+        if name == 'rotate_right':
+            r_ = (n_ - r_) % n_ if n_ else 0
+        ex.store(st, args[0], mk('agg', arr[1], arr[2][r_:] + arr[2][:r_]))
+        return UNIT, st
+    if path == 'core::slice::<impl [T]>::partition_point':
+        arr = ex.load(st, args[0])
+        if arr[0] != 'tbl':
+            raise Uncertified("partition_point over a non-table slice")
+        from .sym import atom as _atom
+        el = _atom('$elem', arr[3])
+        pred, st = call_closure(ex, ctx, st, args[1], [mk('ref', ('val', el), None)])
+        return mk_call('partition_point', (mk('tblref', arr[1]), pred), 'usize'), st
     if path == 'core::slice::<impl [T]>::binary_search':
         arr = ex.load(st, args[0])
         x = ex.load(st, args[1])
